@@ -402,7 +402,16 @@ def run_prog(app, h, rec):
         elif m['m'] == 'bad':
             w = m['what']
             if w == 'ctl':
-                app.response.headers['X-Bad'] = m['v']
+                how = m.get('how', 'set')
+                if how == 'set':
+                    app.response.headers['X-Bad'] = m['v']
+                elif how == 'append':
+                    app.response.headers.append('X-Bad', m['v'])
+                elif how == 'ctype':
+                    app.response.content_type = m['v']
+                else:
+                    # set_cookie stores the cookie first and validates the options afterwards
+                    app.response.set_cookie('badopt', 'v', **{how[len('cookie-'):]: m['v']})
             elif w == 'type':
                 app.response.headers.append('X-Bad', b'bytes')
             elif w == 'status':
@@ -411,7 +420,7 @@ def run_prog(app, h, rec):
                 app.response.set_cookie('bad', 5)
             elif w == 'cookie-long':
                 app.response.set_cookie('bad', 'x' * 4097)
-            raise AssertionError('the call above must raise')
+            # the call above raises; should it not, the program goes on and what it stored reaches start_response
         elif m['m'] in ('rmhook', 'addhook'):
             name = 'after_request' if m['after'] else 'before_request'
             tag = 'hookA' if m['after'] else 'hookB'
@@ -461,7 +470,25 @@ def request_path(case):
 
 def config_of(case):
     cfg = case.get('cfg') or {}
-    return {k: cfg[k] for k in ('catchall', 'debug') if k in cfg}
+    return {k: cfg[k] for k in ('catchall', 'debug', 'max_body_size', 'max_memfile_size') if k in cfg}
+
+
+# request headers / bodies that no handler program of the grammar reads: whatever they say, the request runs
+# through _handle like any other (hooks, routing, handler) — nothing may refuse it before that
+REQ_ODDITIES = [
+    {'CONTENT_LENGTH': '999999', '_body': 'x' * 20}, {'CONTENT_LENGTH': '1001'}, {'CONTENT_LENGTH': '11', '_body': 'x' * 11},
+    {'CONTENT_LENGTH': '9' * 30}, {'CONTENT_LENGTH': '12abc'}, {'CONTENT_LENGTH': '12, 12', '_body': 'x' * 12},
+    {'CONTENT_LENGTH': '-1'}, {'CONTENT_LENGTH': ''}, {'CONTENT_LENGTH': '1e3'},
+    {'HTTP_TRANSFER_ENCODING': 'chunked', '_body': 'zz\r\n'}, {'HTTP_TRANSFER_ENCODING': 'chunked', 'CONTENT_LENGTH': '999999'},
+    {'HTTP_TRANSFER_ENCODING': 'gzip', 'CONTENT_LENGTH': '999999'},
+    {'CONTENT_TYPE': 'multipart/form-data', 'CONTENT_LENGTH': '999999'}, {'CONTENT_TYPE': 'multipart/form-data; boundary='},
+    {'CONTENT_TYPE': 'application/json', '_body': '{bad', 'CONTENT_LENGTH': '4'},
+    {'CONTENT_TYPE': 'application/x-www-form-urlencoded', '_body': 'a=1&b=' + 'x' * 2000, 'CONTENT_LENGTH': '2006'},
+    {'HTTP_COOKIE': 'a=b; ;;=; "'}, {'HTTP_EXPECT': '100-continue'}, {'HTTP_RANGE': 'bytes=abc'},
+    {'HTTP_IF_MODIFIED_SINCE': 'yesterday'}, {'HTTP_AUTHORIZATION': 'Basic !!!'}, {'HTTP_X_REQUESTED_WITH': 'XMLHttpRequest'},
+]
+BODY_LIMITS = [dict(max_body_size=10), dict(max_body_size=1000, max_memfile_size=5), dict(max_body_size=0),
+               dict(max_memfile_size=1)]
 
 
 def new_app(case):
@@ -556,6 +583,10 @@ def make_environ(case):
         env['SERVER_PROTOCOL'] = case['proto']
     if case['fw']:
         env['wsgi.file_wrapper'] = RecWrapper
+    odd = case.get('reqhdr')
+    if odd:
+        env.update({k: v for k, v in odd.items() if k != '_body'})
+        env['wsgi.input'] = io.BytesIO(odd.get('_body', '').encode('latin1'))
     return env
 
 
@@ -1050,7 +1081,10 @@ def enc_hprog(h):
     muts = h['muts']
     bad = next((i for i, m in enumerate(muts) if m['m'] == 'bad'), None)
     if bad is not None:
-        return enc_muts(muts[:bad]) + [2] + S(json.dumps(repr(bad_mut_exc(muts[bad]))))
+        pre = muts[:bad]
+        if muts[bad].get('how', '').startswith('cookie-'):
+            pre = pre + [dict(m='cookie', n='badopt', v='v')]       # the cookie itself is in the jar by then
+        return enc_muts(pre) + [2] + S(json.dumps(repr(bad_mut_exc(muts[bad]))))
     res = h['res']
     if res['k'] == 'ret':
         r = [0] + enc_out(res['o'])
@@ -1565,9 +1599,13 @@ def g_hook_edit(c):
 
 COOKIE_OPTS = [dict(path='/x'), dict(max_age=60), dict(max_age_td=[1, 30]), dict(expires=0), dict(expires=86400 * 365),
                dict(secure=True, httponly=True), dict(domain='example.com', path='/'), dict(samesite='Lax')]
-BAD_MUTS = [dict(m='bad', what='ctl', v='a\nb'), dict(m='bad', what='ctl', v='a\rb'), dict(m='bad', what='ctl', v='\x00'),
+# a control character anywhere in a header value, in particular as its LAST character (a line read from a file and
+# not stripped): refused by _hval whichever way the value gets in
+CTL_VALUES = ['a\nb', 'a\rb', '\x00', 'x\n', 'line one\n', 'x\r', 'x\x00', '\n', 'x\r\n', 'x\n\n', '\nx', 'a\x00b', 'x\n ']
+CTL_HOWS = ['set', 'append', 'ctype', 'cookie-path', 'cookie-domain']
+BAD_MUTS = [dict(m='bad', what='ctl', v=v, how=how) for v in CTL_VALUES for how in CTL_HOWS if how == 'set' or v[-1] in '\n\r\x00'] + [
             dict(m='bad', what='type'), dict(m='bad', what='status', v=99), dict(m='bad', what='status', v=1000),
-            dict(m='bad', what='status', v='200'), dict(m='bad', what='cookie-type'), dict(m='bad', what='cookie-long')]
+            dict(m='bad', what='status', v='200'), dict(m='bad', what='cookie-type'), dict(m='bad', what='cookie-long')] * 4
 
 
 def g_extra_mut(rng, c):
@@ -1689,6 +1727,11 @@ def g_case(rng, edits=True):
         extra['accept'] = rng.choice(ACCEPTS)[0]
     if edits and rng.random() < 0.15:
         extra['proto'] = 'HTTP/1.0'
+    if rng.random() < 0.12:
+        extra['reqhdr'] = dict(rng.choice(REQ_ODDITIES))
+        if rng.random() < 0.7:
+            lim = dict(rng.choice(BODY_LIMITS))
+            extra['cfg'] = dict(extra.get('cfg') or dict(via=rng.choice(['ctor', 'setup']), catchall=True, debug=False), **lim)
     if edits and rng.random() < 0.03:
         # KeyboardInterrupt / SystemExit / MemoryError somewhere
         where = rng.choice(['handler', 'before', 'after'])
@@ -1762,6 +1805,10 @@ def g_pair(rng):
     case['second'] = dict(path='special' if case['path'] == 'plain' or rng.random() < 0.5 else 'plain',
                           json=rng.random() < 0.3, method=rng.choice(['GET', 'GET', 'POST', 'HEAD']),
                           fw=rng.random() < 0.2)
+    if rng.random() < 0.3:
+        # the second request declares a body the application will not take (and never reads)
+        case['second']['reqhdr'] = dict(rng.choice(REQ_ODDITIES))
+        case['cfg'] = dict(case.get('cfg') or dict(via='ctor', catchall=True, debug=False), **rng.choice(BODY_LIMITS))
     return case
 
 
@@ -1927,6 +1974,22 @@ def corpus():
             cs.append(ret(_iter(1, [f], box='gen')))
         cs.append(ret(_resp(418, hello, err=True), eh=[[418, dict(k='raise', cls=name)]]))
         cs.append(ret(hello, routing=prog(f), method='HEAD', cfg=dict(via='ctor', catchall=False, debug=False)))
+    # requests that declare a body the application will not take / malformed framing and body headers, with body limits
+    # configured: no handler of the grammar reads the body, so hooks, routing and handler run as for any request
+    # (seeded change: a BodyMixin.on_init refuses an oversized Content-Length inside request.__init__, before
+    # response.__init__() and outside the try/finally that emits the hooks)
+    setter = dict(k='ok', rhooks=[], h=dict(muts=[dict(m='cookie', n='sid', v='v1'), dict(m='set', n='X-A', v='v')],
+                                            res=dict(k='ret', o=hello)))
+    for i, odd in enumerate(REQ_ODDITIES):
+        for lim in BODY_LIMITS:
+            cfg = dict(via='ctor' if i % 2 else 'setup', catchall=True, debug=False, **lim)
+            cs.append(ret(hello, method='POST', before=[OK_HOOK, OK_HOOK], after=[OK_HOOK, OK_HOOK], reqhdr=odd, cfg=cfg))
+            cs.append(dict(ret(hello, routing=setter, before=[OK_HOOK], after=[OK_HOOK], cfg=cfg), kind='pair',
+                           second=dict(path='plain', json=bool(i % 3 == 0), method='POST', fw=False, reqhdr=odd)))
+        cs.append(ret(hello, method='POST', routing=dict(k='404', partial=None), before=[OK_HOOK], after=[OK_HOOK], reqhdr=odd,
+                      cfg=dict(via='ctor', catchall=True, debug=False, max_body_size=10)))
+        cs.append(ret(hello, method='PUT', routing=crash, before=[OK_HOOK], after=[OK_HOOK], reqhdr=odd, json=True,
+                      cfg=dict(via='ctor', catchall=True, debug=False, max_body_size=10)))
     for proto in ('HTTP/1.1', 'HTTP/1.0'):
         for loc in LOCATIONS[:4]:
             cs.append(ret(hello, proto=proto, routing=prog(dict(k='redirect', loc=loc, code=None))))
@@ -1940,7 +2003,7 @@ def corpus():
     for st in (400, 404, 500, 999):
         cs.append(ret(hello, routing=prog(dict(k='raise_http', err=True, via='abort',
                                                r=dict(status=st, headers=[], cookies=[], body=_str('Unknown Error'))))))
-    for b in BAD_MUTS:
+    for b in [b for i, b in enumerate(BAD_MUTS) if b not in BAD_MUTS[:i]]:
         cs.append(ret(hello, routing=prog(dict(k='ret', o=hello), dict(m='set', n='X-A', v='v'), b,
                                           dict(m='set', n='X-B', v='never'))))
         cs.append(ret(hello, before=[dict(muts=[b], res=dict(k='ret', o=dict(k='falsy', v='none')))], after=[OK_HOOK]))
